@@ -189,6 +189,15 @@ class Engine:
             self.params[p] = v
             st.pc += ty.wf(v.t) if not isinstance(ty, TTuple) else ty.wf(v.t)
         self.pre = self._ns(self.params)
+        # the defaults the contract gives to callers must be the ones in the signature
+        pos = node.args.posonlyargs + node.args.args
+        sig_defaults = dict(zip([a.arg for a in pos[len(pos) - len(node.args.defaults):]], node.args.defaults))
+        sig_defaults.update({a.arg: d for a, d in zip(node.args.kwonlyargs, node.args.kw_defaults) if d is not None})
+        for p, d in sig_defaults.items():
+            if p in c.defaults and isinstance(d, ast.Constant):
+                same = type(d.value) is type(c.defaults[p]) and d.value == c.defaults[p]
+                self.obls.append(Obligation(c.name, f"default[{p}] is the signature's", [], z3.BoolVal(same),
+                                            node.lineno, "assert", True, self.params))
         if c.requires:
             for _, cl in c.requires(SYM, self.pre).items():
                 st.pc.append(cl)
@@ -999,7 +1008,39 @@ class Engine:
             return Val(TReal, z3.ToReal(a.t)), b
         if a.ty is TReal and b.ty is TInt:
             return a, Val(TReal, z3.ToReal(b.t))
+        # two alternatives of a union the contract mentions (e.g. int | slice): inject both
+        for u in self._known_unions():
+            alts = {aty.name for _, aty in u.alts if aty is not None}
+            if a.ty.name in alts and b.ty.name in alts:
+                return self.coerce(a, u, st, node), self.coerce(b, u, st, node)
         raise Unsupported(f"cannot unify {a.ty} and {b.ty}", node)
+
+    def _known_unions(self) -> list:
+        """Union sorts occurring in the sorts the contract under verification declares (params, result, locals)."""
+        if getattr(self, "_unions_for", None) is not self.c:
+            found: dict[str, TUnion] = {}
+
+            def walk(t):
+                if isinstance(t, TUnion):
+                    found[t.name] = t
+                    for _, aty in t.alts:
+                        if aty is not None:
+                            walk(aty)
+                elif isinstance(t, (TSeq, TOpt, TSet)):
+                    walk(t.elem)
+                elif isinstance(t, TDict):
+                    walk(t.key), walk(t.val)
+                elif isinstance(t, TTuple):
+                    for x in t.items:
+                        walk(x)
+                elif isinstance(t, TRec):
+                    for x in t.fields.values():
+                        walk(x)
+            for t in list(self.c.params.values()) + [self.c.returns] + list(self.c.locals_.values()):
+                if t is not None:
+                    walk(t)
+            self._unions, self._unions_for = list(found.values()), self.c
+        return self._unions
 
     def coerce(self, v: Val, ty: Ty, st: State, node) -> Val:
         if v.ty is ty or v.ty.name == ty.name:
@@ -1262,8 +1303,9 @@ class Engine:
             e = self.eval(node.elt, inner)
         # quantified-context assumptions made while evaluating the body (e.g. fresh results of callee contracts)
         extra = inner.pc[len(st.pc):]
-        # soundness guard: a symbol created *inside* the body would have to be a function of the bound index; the
-        # encoding has no such skolem functions, so such bodies are outside the subset.
+        # A symbol created *inside* the body (result of a callee contract, an inner comprehension, ...) is a value per
+        # index: it is replaced by a skolem function of the bound index, so that the assumptions made about it in the
+        # body hold per index (they are quantified over the index below).  Fresh *functions* are not lifted: refused.
         terms = list(extra) + [c_ for c_, _, _ in sink]
         if cond is not None:
             terms.append(cond)
@@ -1271,15 +1313,32 @@ class Engine:
             if isinstance(ee.t, list):
                 raise Unsupported("comprehension yielding heterogeneous tuples", node)
             terms.append(ee.t)
+        fresh_consts: dict[str, Any] = {}
         for t_ in terms:
-            for nm in _const_names(t_):
-                if "!" in nm:
-                    try:
-                        idx_ = int(nm.rsplit("!", 1)[1])
-                    except ValueError:
-                        continue
-                    if idx_ > mark and nm != str(ic):
-                        raise Unsupported(f"fresh symbol {nm} created inside a comprehension body", node)
+            for x_ in _uninterpreted_apps(t_):
+                nm = x_.decl().name()
+                if "!" not in nm or nm == str(ic):
+                    continue
+                try:
+                    idx_ = int(nm.rsplit("!", 1)[1])
+                except ValueError:
+                    continue
+                if idx_ > mark:
+                    if x_.num_args() > 0:
+                        raise Unsupported(f"fresh function {nm} created inside a comprehension body", node)
+                    fresh_consts[nm] = x_
+        if fresh_consts:
+            subs = [(c_, z3.Function(fresh_name("sk:" + nm.split("!")[0]), z3.IntSort(), c_.sort())(ic))
+                    for nm, c_ in fresh_consts.items()]
+            lift = lambda t_: z3.substitute(t_, *subs)  # noqa: E731
+            extra = [lift(h) for h in extra]
+            sink[:] = [(lift(c_), exc_, ln_) for c_, exc_, ln_ in sink]
+            if cond is not None:
+                cond = lift(cond)
+            if isinstance(e, tuple):
+                e = tuple(Val(ee.ty, lift(ee.t), ee.mut) for ee in e)
+            else:
+                e = Val(e.ty, lift(e.t), e.mut)
         rng = z3.And(0 <= ic, ic < n)
         for cnd, exc, line in sink:
             self.do_raise_q(st, z3.And(rng, cnd), exc, line)
@@ -1625,6 +1684,10 @@ class Engine:
             static = "list" if v.mut else "tuple"
         if isinstance(v.ty, TDict):
             static = "dict"
+        if isinstance(v.ty, TRec):  # a record models instances of the class it is named after (typed by the contract)
+            if v.ty.name == nm:
+                return z3.BoolVal(True)
+            raise Unsupported(f"isinstance of a {v.ty.name} record against {nm}", node)
         if static is None:
             raise Unsupported(f"isinstance on {v.ty}", node)
         return z3.BoolVal(static == nm)
@@ -1761,6 +1824,25 @@ class Engine:
                 c = a.t <= b.t if is_min else a.t >= b.t
                 return Val(a.ty, z3.If(c, a.t, b.t))
         raise Unsupported("min/max form", node)
+
+
+def _uninterpreted_apps(t) -> list:
+    """All applications of uninterpreted symbols (constants and functions) in t, also under quantifiers."""
+    out, seen, stack = [], set(), [t]
+    while stack:
+        x = stack.pop()
+        i = x.get_id()
+        if i in seen:
+            continue
+        seen.add(i)
+        if z3.is_quantifier(x):
+            stack.append(x.body())
+            continue
+        if z3.is_app(x):
+            if x.decl().kind() == z3.Z3_OP_UNINTERPRETED:
+                out.append(x)
+            stack.extend(x.children())
+    return out
 
 
 def _const_names(t) -> set[str]:
